@@ -34,7 +34,7 @@ with tb_shp_stat (s : stat) {struct s} : bool :=
   | SForIn _ _ es b _ => forallb tb_shp_exp es && tb_shp_block b
   | SAssign vars es _ => forallb tb_shp_exp vars && forallb tb_shp_exp es
   | SLocal ns ls _ es _ =>
-    Nat.eqb (length ns) (length ls) && Nat.leb (length es) (length ns) && forallb tb_shp_exp es
+    Nat.eqb (length ns) (length ls) && forallb tb_shp_exp es
   | SLocalFunc _ _ f _ => tb_shp_exp f
   end
 with tb_shp_block (b : block) {struct b} : bool :=
@@ -70,10 +70,10 @@ Definition cl_assign_name (nm : list N) (n : list N) (l : loc) (eo : option exp)
   || (clean_at st n l
       && clean_at (mkT (upd_frames (var_hit n l) (repoint n eo) (t_frames st)) (t_globals st) (t_occs st)) n l).
 
-(* local_loop: all look-ups happen while the expressions are visited (one beyond the names included), before any
-   name of the statement is added (since fixes/C07-multi-local-order.diff) *)
+(* local_loop: all look-ups happen while the expressions are visited (those beyond the names included:
+   fixes/C20-local-surplus.diff), before any name of the statement is added (since fixes/C07-multi-local-order.diff) *)
 Definition cl_local_loop (vis : list (exp * tT * tC)) (ns : list (list N * loc)) (st : tstate) : bool :=
-  cl_all (map (fun x => (snd (fst x), snd x)) (firstn (S (length ns)) vis)) st.
+  cl_all (map (fun x => (snd (fst x), snd x)) vis) st.
 
 Lemma local_adds_fold il : forall es nls lc st,
   local_adds es nls lc il st = fold_left (fun s v => add_var v s) (local_vars es nls lc il) st.
@@ -85,17 +85,15 @@ Qed.
 
 (* the shapes used under tb_shape: no more expressions than names *)
 Lemma local_loop_shape (f : exp -> tT) es nls lc il st :
-  (length es <= length nls)%nat ->
   local_loop (map (fun e => (e, f e)) es) nls lc il st = local_adds es nls lc il (apply_all (map f es) st).
 Proof.
-  intros Hl. unfold local_loop. rewrite firstn_all2 by (rewrite map_length; lia).
+  unfold local_loop.
   rewrite !map_map. cbn [fst snd]. rewrite map_id. reflexivity.
 Qed.
 Lemma cl_local_loop_shape (f : exp -> tT) (c : exp -> tC) es nls st :
-  (length es <= length nls)%nat ->
   cl_local_loop (map (fun e => (e, f e, c e)) es) nls st = cl_all (map (fun e => (f e, c e)) es) st.
 Proof.
-  intros Hl. unfold cl_local_loop. rewrite firstn_all2 by (rewrite map_length; lia).
+  unfold cl_local_loop.
   rewrite map_map. reflexivity.
 Qed.
 
